@@ -117,7 +117,12 @@ type Stmt struct {
 
 // DrawStmt produces a data statement on the given table with lit in the key position (a
 // quoted token literal or a bind marker) together with its documented idempotency.
-func DrawStmt(c *choice.Stream, lit, table string) Stmt {
+func DrawStmt(c *choice.Stream, lit, table string) Stmt { return drawStmt(c, lit, table, false) }
+
+// DrawMutation is DrawStmt without SELECT (batch children).
+func DrawMutation(c *choice.Stream, lit, table string) Stmt { return drawStmt(c, lit, table, true) }
+
+func drawStmt(c *choice.Stream, lit, table string, noSelect bool) Stmt {
 	type tpl struct {
 		f    string
 		idem bool
@@ -136,7 +141,12 @@ func DrawStmt(c *choice.Stream, lit, table string) Stmt {
 		{"UPDATE %[2]s SET v = 3 WHERE k = %[1]s IF v = 2", false, false},
 		{"DELETE l[1] FROM %[2]s WHERE k = %[1]s", false, false},
 	}
-	t := tpls[c.Choose("stmt", len(tpls))]
+	var t tpl
+	if noSelect {
+		t = tpls[1+c.Choose("stmt-nosel", len(tpls)-1)]
+	} else {
+		t = tpls[c.Choose("stmt", len(tpls))]
+	}
 	return Stmt{Text: fmt.Sprintf(t.f, lit, table), Idempotent: t.idem, Select: t.sel, Marker: lit == "?"}
 }
 
@@ -154,4 +164,45 @@ func ExecMsg(id []byte, resultMetaID []byte, tok string, cl primitive.Consistenc
 		Consistency:      cl,
 		PositionalValues: []*primitive.Value{primitive.NewValue([]byte(tok))},
 	}}
+}
+
+// Variant rewrites a statement without changing its meaning: keyword case, whitespace,
+// newlines and a trailing semicolon (string literals are left alone).
+func Variant(c *choice.Stream, text string) string {
+	v := c.Choose("variant", 6)
+	if v == 0 {
+		return text
+	}
+	var sb []byte
+	inStr := false
+	for i := 0; i < len(text); i++ {
+		ch := text[i]
+		if ch == '\'' {
+			inStr = !inStr
+		}
+		if inStr {
+			sb = append(sb, ch)
+			continue
+		}
+		switch {
+		case v == 1 && ch >= 'A' && ch <= 'Z':
+			sb = append(sb, ch+32)
+		case v == 2 && ch == ' ':
+			sb = append(sb, ' ', ' ')
+		case v == 3 && ch == ' ':
+			sb = append(sb, '\n')
+		case v == 4 && ch == ' ':
+			sb = append(sb, '\t')
+		default:
+			sb = append(sb, ch)
+		}
+	}
+	out := string(sb)
+	if v == 5 {
+		out += ";"
+	}
+	if v == 2 {
+		out = "  " + out + "  "
+	}
+	return out
 }
